@@ -87,8 +87,30 @@ func (e *integEngine) checkC14(x *integExpect) {
 				}
 			}
 		}
+		// (c') a failing before hook: the task executions of the context run none of their own
+		// commands and report the error; the context is still taken down (rule e)
+		beforeFails := false
+		for k := 0; k < cs.NBefore; k++ {
+			if planExit(e.w.Plan(execID(owner, "before", k, ""))) != 0 {
+				beforeFails = true
+			}
+		}
+		if beforeFails && !upFailed {
+			for _, t := range e.w.Tasks {
+				if t.Context != cs.Name {
+					continue
+				}
+				if rs := e.execsOf(t.Name); len(rs) > 0 {
+					c.Violate("C14", "ran-despite-before-failure", "context %s: its before hook fails but task %s executed %v", cs.Name, t.Name, idsOf(rs))
+				}
+				if known, ok := e.taskSucceeded(t.Name); known && ok && e.taskWasRun(t.Name) {
+					c.Violate("C14", "success-despite-before-failure", "context %s: its before hook fails but task %s reports success", cs.Name, t.Name)
+				}
+			}
+			c.Count("c14_contexts_with_failing_before")
+		}
 		// (d) before/after once per task execution, around the task's own commands
-		if !upFailed && !cancelled {
+		if !upFailed && !cancelled && !beforeFails {
 			for _, rr := range users {
 				e.checkHookPattern(cs, rr)
 			}
